@@ -404,7 +404,13 @@ func (i *interpreter) outScalar(a []value, want skind) value {
 	switch want {
 	case sBV:
 		return conv(types.Typ[types.Int64], t, v)
-	case sF64, sStr, sBool:
+	case sF64:
+		// a whole-number literal assigned to an untyped field arrives as an int
+		if b, ok := t.Underlying().(*types.Basic); ok && b.Info()&types.IsInteger != 0 {
+			return conv(types.Typ[types.Float64], t, v)
+		}
+		return v
+	case sStr, sBool:
 		return v
 	}
 	return v
